@@ -96,6 +96,14 @@ func checkTokens(input []byte, res lexResult, pt posTable, allowDrift bool) (msg
 	if fs3 {
 		finding = "FS3"
 	}
+	if msg != "" && strings.Contains(msg, "(integer with unknown base) has range") {
+		// FS47: `0` followed by a letter: numberState consumes one more rune unconditionally after the "base" letter; at the end of
+		// the input the token then ends one byte behind the input
+		n := len(input)
+		if n >= 2 && input[n-2] == '0' && (input[n-1] >= 'a' && input[n-1] <= 'z' || input[n-1] >= 'A' && input[n-1] <= 'Z') {
+			finding = "FS47"
+		}
+	}
 	if msg != "" && !fs3 && strings.HasPrefix(msg, "tokens cover only") {
 		// FS6: inside a template expression a backslash that is not followed by `(` is skipped silently
 		// (with the following code point); at the end of the input it is covered by no token.
@@ -358,6 +366,7 @@ type c37State struct {
 	// FS42: the fix of FS4 (d5226c2) only guards InclusiveRangeType.Resolve; the nil member type of an InclusiveRange written with a
 	// wrong number of type arguments still crashes other visitors (IsImportable for transaction parameters, …). Same predicate.
 	knownFS42 bool
+	unsetExamples map[string]string // one example input per error type that carried an unset position (FS5)
 }
 
 // quiet evaluates a case without touching the evidence counters (used while shrinking).
@@ -456,6 +465,12 @@ func (st *c37State) one(c Case, class string) string {
 					outcome = "parse-error-FS8"
 					continue
 				}
+				if strings.Contains(text, "parser did not make progress") && strings.Contains(text, "parser.parseSwitchCases(") && rec.Known("FS48") && !st.replay {
+					// FS48: switch cases followed by an unterminated string template: parseSwitchCases stops consuming tokens
+					rec.Excluded("FS48")
+					outcome = "parse-error-FS48"
+					continue
+				}
 				return fmt.Sprintf("parser reported an internal error: %.1800s", text)
 			}
 			if m, unset := checkPositioned(child, n, lines); m != "" {
@@ -490,6 +505,12 @@ func (st *c37State) one(c Case, class string) string {
 				}
 				rec.Class("check-panic-FS4")
 				co = checkOutcome{}
+			} else if rec.Known("FS49") && !st.replay && strings.Contains(co.Stack, "sema.(*Checker).maybeAddResourceInvalidation") {
+				// FS49: a non-resource value (e.g. the type constructor `Address`) assigned to a variable annotated with a resource
+				// type without `@`: recordResourceInvalidation runs without a resource variable
+				rec.Excluded("FS49")
+				rec.Class("check-panic-FS49")
+				co = checkOutcome{}
 			} else if rec.Known("FS43") && !st.replay && strings.Contains(co.Stack, "sema.(*Checker).checkDefaultDestroyEvent") && bytes.Count(input, []byte("ResourceDestroyed")) >= 2 {
 				// FS43: a resource that declares ResourceDestroyed twice with different parameter counts
 				rec.Excluded("FS43")
@@ -517,6 +538,9 @@ func (st *c37State) one(c Case, class string) string {
 					if unset && st.knownFS5 {
 						rec.Excluded("FS5")
 						rec.Class(fmt.Sprintf("unset-position/%T", child))
+						if key := fmt.Sprintf("%T", child); n < 300 && st.unsetExamples != nil && st.unsetExamples[key] == "" {
+							st.unsetExamples[key] = string(input) + "  ⇒  " + firstLine(safeErrorText(child))
+						}
 						continue
 					}
 					return "checker error position: " + m + " (" + firstLine(safeErrorText(child)) + ")"
@@ -652,7 +676,8 @@ func TestC37(t *testing.T) {
 		"earlier input (incl. ones ending inside a template/comment/error) and again after a neutral one, then parsed, and checked when it parses. "+
 		"Oracle: no panic, no internal error, error positions inside the input, tokens contiguous from 0 to EOF, line/column recomputed from the bytes, "+
 		"token stream independent of earlier inputs. Non-trivial: ≥ 3 tokens and (mutated/stress/raw input, or contains a multi-byte code point, a string template or a block comment). Distinct by input bytes.")
-	st := &c37State{rec: rec, t: t}
+	st := &c37State{rec: rec, t: t, unsetExamples: map[string]string{}}
+	defer func() { rec.Extra("unset_position_examples", st.unsetExamples) }()
 	st.knownFS1 = rec.Known("FS1")
 	st.knownFS2 = rec.Known("FS2")
 	st.knownFS4 = rec.Known("FS4")
@@ -722,11 +747,21 @@ func TestC37(t *testing.T) {
 		rec.ReportKnown("FS4", pr.Program != nil && checkGuarded(pr.Program).Panic != nil)
 	}
 	if rec.Known("FS5") {
-		in := []byte("let v: {auth(W) {d")
 		still := false
-		if pe, ok := parseGuarded(in).Err.(parser.Error); ok {
-			for _, ch := range pe.Errors {
-				if m, unset := checkPositioned(ch, len(in), 1); m != "" && unset {
+		for _, src := range []string{"let v: {auth(W) {d", "fun t(x: t) { post {0}; let before = 0 }",
+			"import Foo\nimport \"FungibleToken\"", "fun test(n: Int) { post { create before(n) } }"} {
+			in := []byte(src)
+			pr := parseGuarded(in)
+			var errs []error
+			if pe, ok := pr.Err.(parser.Error); ok {
+				errs = pe.Errors
+			} else if pr.Err == nil && pr.Program != nil {
+				if ce, ok := checkGuarded(pr.Program).Err.(*sema.CheckerError); ok {
+					errs = ce.Errors
+				}
+			}
+			for _, ch := range errs {
+				if m, unset := checkPositioned(ch, len(in), 2); m != "" && unset {
 					still = true
 				}
 			}
@@ -736,6 +771,24 @@ func TestC37(t *testing.T) {
 	if rec.Known("FS43") {
 		pr := parseGuarded([]byte("resource C { event ResourceDestroyed() event ResourceDestroyed(c: Int = 1) }"))
 		rec.ReportKnown("FS43", pr.Program != nil && checkGuarded(pr.Program).Panic != nil)
+	}
+	if rec.Known("FS47") {
+		in := []byte("0h")
+		m, f, _ := checkTokens(in, lexAll(in, true), newPosTable(in), false)
+		rec.ReportKnown("FS47", m != "" && f == "FS47")
+	}
+	if rec.Known("FS48") {
+		still := false
+		if pe, ok := parseGuarded([]byte("access(a)fun a()switch _\"\\()\\(")).Err.(parser.Error); ok {
+			for _, ch := range pe.Errors {
+				still = still || cerrors.IsInternalError(ch)
+			}
+		}
+		rec.ReportKnown("FS48", still)
+	}
+	if rec.Known("FS49") {
+		pr := parseGuarded([]byte("let a: AnyResource = Address"))
+		rec.ReportKnown("FS49", pr.Program != nil && checkGuarded(pr.Program).Panic != nil)
 	}
 	if rec.Known("FS42") {
 		pr := parseGuarded([]byte("transaction(a: InclusiveRange) {}"))
